@@ -543,6 +543,25 @@ def oracle_identities(case):
         if not relv(np.diag(cov), d.var.data, 1e-8, 1e-11):
             fails.append({'what': f'{nm}: diagonal of the SFS covariance matrix is not the SFS variance', 'reads': order,
                           'diag': np.diag(cov).tolist(), 'var': d.var.data.tolist()})
+    # the size-weighted identity for orders 1 and 2 through ONE composite reward: the library has no scalar weights, so bin i is listed i
+    # times in a SumReward (repeated components count with their multiplicity); sum_i i xi_i = n H, so its raw moments are n^k E[H^k]
+    if 3 <= nn <= 6:
+        R_ = pg.rewards
+        wsum = R_.SumReward([R_.UnfoldedSFSReward(i) for i in range(1, nn) for _ in range(i)])
+        for k in (1, 2):
+            wv = c.moment(k, (wsum,) * k, center=False)
+            hv = c.tree_height.moment(k, center=False)
+            n += 1
+            if not rel(wv, nn ** k * hv, 1e-8):
+                fails.append({'what': f'raw moment of order {k} of SumReward(bin i listed i times) is not n^{k} times that of the tree height',
+                              'weighted': wv, 'n^k*H^k': nn ** k * hv})
+        psq = R_.ProductReward([R_.TotalBranchLengthReward(), R_.TotalBranchLengthReward()])
+        n += 1
+        # ProductReward([L, L]) is the pointwise square of the branch-length reward (a repeated factor is a power)
+        ss_ = c.lineage_counting_state_space
+        if not relv(np.asarray(psq._get(ss_), dtype=float), np.asarray(R_.TotalBranchLengthReward()._get(ss_), dtype=float) ** 2, 1e-12):
+            fails.append({'what': 'ProductReward([L, L]) is not the pointwise square of the total-branch-length reward',
+                          'product': np.asarray(psq._get(ss_), dtype=float).tolist()})
     # lineage-counting vs block-counting representation
     for k in (1, 2):
         for rw, lcv in ((pg.rewards.TreeHeightReward(), c.tree_height.moment(k, center=False)),
